@@ -195,6 +195,9 @@ namespace chaiscript {
         return true;
       }
 
+      // a file shorter than the BOM leaves the stream in a failed state: reset it, or the
+      // seek and every later read silently do nothing
+      infile.clear();
       infile.seekg(0);
 
       return false;
